@@ -30,11 +30,26 @@ def witness_replay(entry):
     return (v.valid and rej), "cooldown-free key-down skill: valid=%s while running, second use rejected=%s" % (v.valid, rej)
 
 
+def dispatch_hook(ctx):
+    """store-access part of the views: Props/C10_dispatch.v over Model/DispatchViews.v + the H-dispatch tie and search"""
+    from lib import h_dispatch
+    return h_dispatch.hook(ctx, "C10")
+
+
 def run(ctx: Ctx) -> int:
+    from lib import h_dispatch
+    pre = h_dispatch.preflight(ctx)      # a bound address nobody owns: every view of that component raises in the INITIAL state (and no plan can be drawn)
+    if pre:
+        for f in sorted(pre, key=lambda f: "address" not in f)[:3]:     # the unowned bound address first, then the views that raise
+            ctx.violation("impl-counterexample", f["what"], input=f)
+        return ctx.finish("proof", ec.ASSUME_COMMON)
     return ec.run_prop(ctx, "theories/Props/C10.v", ec.ASSUME_COMMON + [
-        "'views never raise' is totality of Python code: tested on every reachable state visited, not proved",
+        "'views never raise': the STORE ACCESS of a view (WrappedView / StoreAdapter.get_state, aggregation views, clock) is proved total and "
+        "read-only on every reachable store (Props/C10_dispatch.v over Model/DispatchViews.v, presence invariant; proviso binds_closed is a "
+        "generated obligation on the extracted components, gen/DispatchData.v); totality of the view METHODS themselves is Python code: "
+        "tested on every reachable state visited, not proved",
         "key-down skills: modelled with the repaired validity (fix de960db), valid->accepted proved for all states"],
-        known_match, witness_replay, RULE)
+        known_match, witness_replay, RULE, hook=dispatch_hook)
 
 
 def replay(ctx, path):
